@@ -1,5 +1,6 @@
 import EaselModel.Weights.GSCPerm
 import EaselModel.Weights.Tree
+import EaselModel.Weights.TreeLemmas
 /-! C16 helper lemmas, part 31 (round 6): can the two GSC findings be repaired by a better TIE RULE in `cluster_engine`?
 
   `cluster_engine` joins, in every pass, the FIRST minimum of the upper triangle in row-major order of the current matrix
@@ -122,6 +123,58 @@ theorem gscWith_eq_gsc_of_tieFree (pick : KState ℚ → Nat × Nat) (hp : TieRu
   unfold gscWith gsc
   rw [crun_of_tieFree pick hp m rows htf (rows.length - 1) (by omega)]
   rfl
+
+/-! ### sum N and non-negativity do not depend on WHICH pair a pass joins
+
+  Not even on its being a minimum: the clamp `ESL_MAX(0., …)` keeps every branch length ≥ 0 and the traversals +
+  normalisation do the rest. So these two properties hold for whatever decisions the binary64 code takes at (near-)ties,
+  where it need not follow the exact-arithmetic run. -/
+
+theorem stepAt_inv (n : Nat) (st : KState ℚ) (pi pj : Nat) (h : KInv st) : KInv (stepAt n st pi pj) := by
+  have hh : 0 ≤ kdist st.rows (st.act.getD pi 0) (st.act.getD pj 0) / (ofNat 2 : ℚ) := by
+    have := h.rows.kdist (st.act.getD pi 0) (st.act.getD pj 0)
+    simp only [ofNat_rat]; positivity
+  refine ⟨?_, ?_⟩
+  · show RowsNN (st.rows.push _)
+    apply h.rows.push
+    intro x
+    simp only [Array.getD_eq_getD_getElem?, Array.getElem?_map]
+    cases hx : (Array.range st.rows.size)[x]? with
+    | none => simp
+    | some x' =>
+      simp only [Option.map_some, Option.getD_some, kmerged, ofNat_rat]
+      have key : ∀ a, 0 ≤ kdist st.rows a x' := fun a => h.rows.kdist a x'
+      exact div_nonneg (add_nonneg (mul_nonneg (Nat.cast_nonneg _) (key _)) (mul_nonneg (Nat.cast_nonneg _) (key _)))
+        (Nat.cast_nonneg _)
+  · intro nd hnd
+    have hnd' : nd ∈ (⟨st.act.getD pi 0, st.act.getD pj 0,
+        kbranch n (kdist st.rows (st.act.getD pi 0) (st.act.getD pj 0) / ofNat 2) st.hgt (st.act.getD pi 0),
+        kbranch n (kdist st.rows (st.act.getD pi 0) (st.act.getD pj 0) / ofNat 2) st.hgt (st.act.getD pj 0)⟩ : KNode ℚ) ::
+        st.nodes := hnd
+    rcases List.mem_cons.mp hnd' with rfl | h'
+    · exact ⟨kbranch_nonneg _ _ hh _ _, kbranch_nonneg _ _ hh _ _⟩
+    · exact h.nodes nd h'
+
+theorem crun_inv (pick : KState ℚ → Nat × Nat) (n : Nat) (st : KState ℚ) (h : KInv st) (k : Nat) :
+    KInv (crun pick n st k) := by
+  induction k with
+  | zero => exact h
+  | succ k ih => exact stepAt_inv n _ _ _ ih
+
+/-- for EVERY choice of the pair to join in each pass (`pick` unconstrained): N weights, each ≥ 0, summing to N -/
+theorem gscWith_sum_nonneg (pick : KState ℚ → Nat × Nat) (m : Mode) (rows : List Row) (hne : rows ≠ []) :
+    (gscWith pick m rows).length = rows.length ∧ (gscWith pick m rows).sum = rows.length ∧
+      ∀ w ∈ gscWith pick m rows, 0 ≤ w := by
+  have hl : 0 < rows.length := List.length_pos_iff.mpr hne
+  unfold gscWith
+  by_cases h1 : (rows.length == 1) = true
+  · rw [if_pos h1]
+    have : rows.length = 1 := by simpa using h1
+    simp [this]
+  · rw [if_neg h1]
+    have hinv : KInv (crun pick rows.length (kinit (α := ℚ) m rows) (rows.length - 1)) :=
+      crun_inv pick _ _ ⟨kinit_RowsNN m rows, by intro nd hnd; simp [kinit] at hnd⟩ _
+    exact ⟨gscTree_length _ _, gscTree_sum _ _ hl, gscTree_nonneg _ _ hinv.nodes⟩
 
 /-! ### the witness: `AAAA`, `AABB`, `BBBB` and its reversal -/
 
